@@ -276,22 +276,27 @@ def couplingRows (k : Nat) : List (Row α) :=
   let fixed := constrain ++ t0row
   match g.kind with
   | .uniform =>
-    -- the min/max row rides on the first yielded row of k = 0 and is parametric unless T is free
-    match fixed with
-    | [] => []
-    | e :: rest =>
-      if k = 0 then
-        let mm : List (Row α) :=
-          if g.locT then
-            (if c.o.Tfree then [{ tag := "grid minmax 0", atoms := minmaxAtoms g (Tl 0) }] else [])
-          else if g.defaultBounds then []
-          else (if c.o.Tfree then [{ tag := "grid minmax 0", atoms := minmaxAtoms g (c.pt.T / (N : α)) }] else [])
-        e :: mm ++ rest
-      else fixed
-  | .geometric _ _ _ =>
+    -- one min/max row (all intervals are equal); parametric rows are skipped by `is_parametric`
     let mm : List (Row α) :=
-      if k = 0 && c.o.Tfree then
-        [{ tag := "grid minmax 0", atoms := minmaxAtoms g (if g.locT then Tl 0 else c.pt.T * nz.getD 1 (nat 0)) }]
+      if k = 0 then
+        (if g.locT then
+          (if c.o.Tfree then [{ tag := "grid minmax 0", atoms := minmaxAtoms g (Tl 0) }] else [])
+        else if g.defaultBounds then []
+        else (if c.o.Tfree then [{ tag := "grid minmax 0", atoms := minmaxAtoms g (c.pt.T / (N : α)) }] else []))
+      else []
+    mm ++ fixed
+  | .geometric _ _ _ =>
+    -- the first and the last interval are bounded (the intervals are monotone in between)
+    let mm : List (Row α) :=
+      if g.locT then
+        (if k = 0 || k = N - 1 then
+          (if k = 0 && !c.o.Tfree then [] else [{ tag := s!"grid minmax {k}", atoms := minmaxAtoms g (Tl k) }])
+        else [])
+      else if c.o.Tfree then
+        (if k = 0 then [{ tag := "grid minmax 0", atoms := minmaxAtoms g (c.pt.T * nz.getD 1 (nat 0)) }] else [])
+        ++ (if k = N - 1 && decide (1 < N) then
+              [{ tag := s!"grid minmax {k}", atoms := minmaxAtoms g (c.pt.T * (nz.getD N (nat 0) - nz.getD (N-1) (nat 0))) }]
+            else [])
       else []
     mm ++ fixed
   | .free => [{ tag := s!"grid minmax {k}", atoms := minmaxAtoms g (Tl k) }] ++ fixed
@@ -314,11 +319,9 @@ def dynRows : List (Row α) :=
   | .ss => []
   | .dc => c.dcDynRows
 
+/-- every method adds the coupling rows of every control interval -/
 def gridRows : List (Row α) :=
-  (match c.o.method.kind with
-   | .ms => (List.range c.N).flatMap c.couplingRows
-   | _ => [])
-  ++ c.finalizeRows
+  (List.range c.N).flatMap c.couplingRows ++ c.finalizeRows
 
 def nlp : NLP α :=
   { f := c.objective, rows := c.dynRows ++ c.gridRows ++ c.tposRows ++ c.userRows }
